@@ -27,6 +27,36 @@ def factory_harness():
     return '#include <cstring>\n' + '\n'.join(L) + '\n'
 
 
+# classes whose default-constructed object does not travel through a File session as itself, with the reason
+FILE_EXEMPT = {
+    'EnvironmentVariable': 'recorded finding: the constructor leaves objectType UNKNOWN',
+    'RestorePointContainer': 'type 115 is the format-internal restore point; File treats it specially',
+    'LogContainer': 'the container itself',
+}
+
+
+def file_types_harness(classes):
+    L = ['#include <vp_harness.h>', '#include <vp_fs.h>', '#include <typeinfo>', '#include <Vector/BLF.h>', 'using namespace Vector::BLF;',
+         'extern "C" void h_file_types() {',
+         '    uint32_t codes[%d]; int n = 0;' % len(classes),
+         '    {',
+         '        File f; f.compressionLevel = 0; f.writeRestorePoints = false;',
+         '        f.open(VP_FILE("a.blf"), std::ios_base::out);']
+    for c in classes:
+        L.append('        { %s * o = new %s; memcpy(&codes[n++], &o->objectType, 4); f.write(o); }' % (c, c))
+    L += ['        f.close();', '    }',
+          '    File g; g.open(VP_FILE("a.blf"), std::ios_base::in);',
+          '    ObjectHeaderBase * o; int k = 0;']
+    for i, c in enumerate(classes):
+        L.append('    o = g.read(); vp_assert(o != nullptr, "default %s written through File is delivered when the file is read");' % c)
+        L.append('    if (o) { vp_assert(typeid(*o) == typeid(%s), "%s comes back as its own class"); uint32_t ot; memcpy(&ot, &o->objectType, 4); '
+                 'vp_assert(ot == codes[%d], "%s keeps its type code"); delete o; k++; }' % (c, c, i, c))
+    L += ['    o = g.read(); vp_assert(o == nullptr, "nothing but the written objects is delivered"); delete o;',
+          '    g.close();',
+          '    vp_reach("h_file_types:end");', '}']
+    return '#define VP_FS_CAP 60000\n#include <cstring>\n' + '\n'.join(L) + '\n'
+
+
 def tasks(tier, seed):
     r = reflect.reflect()
     reach = ['h_factory:end', 'unknown'] + ['code_%d' % v for _, _, v in r['table']]
@@ -36,6 +66,19 @@ def tasks(tier, seed):
                reach=reach, bounds='all 2^32 codes (one path per switch arm + default)',
                kinds={'assert', 'memory', 'uncaught_exception', 'terminate', 'leak'}, opts=dict(validate=False))]
     ts += CC.rt_tasks(tier, kinds={'typecode', 'uninit_member', 'uninit_output', 'roundtrip', 'memory'}, entry='h_default')
+    # through the file: a default object of every class written with File and read back by File (the read path consults the
+    # factory with the code found in the file)
+    import codec
+    cls = [c for c in codec.classes() if c not in FILE_EXEMPT]
+    step = 10
+    for i in range(0, len(cls), step):
+        chunk = cls[i:i + step]
+        ts.append(Task('file_types.%s-%s' % (chunk[0], chunk[-1]), file_types_harness(chunk), 'h_file_types', None,
+                       opts=dict(validate=False, extra=['zlib_stub.cpp'], limit_is_hang=True, max_steps=20000000, max_wall=600),
+                       desc='default-constructed objects of %s written through a File session and read back: each is delivered, '
+                            'as its own class, with the code it was constructed with' % ', '.join(chunk),
+                       reach=('h_file_types:end',), bounds='one default object per class',
+                       kinds={'assert', 'memory', 'uncaught_exception', 'terminate', 'deadlock', 'hang', 'leak'}))
     meta = dict(
         level='model_checking',
         explanation='(1) The real File::createObject switch is executed for a symbolic 32-bit type code; llsym forks per '
